@@ -3,5 +3,20 @@ V8 = 'Trusted: V8 (node v20) as reference semantics, gcc 12/clang 14 compiling t
 CHECKS['C01'] = dict(category='exploration', design_ref='DESIGN.md §2 C01',
   text='Runtime differential monitoring: every integer opcode over the full cross product of boundary operand sets (both header code paths), plus generated nested integer programs, executed through the real translator + C compiler and compared call by call (value, trap/no-trap, trap code, trap-handler entry count) with V8 running the same binary. Held = no divergence on the executions listed in the evidence.',
   note=V8, technique='runtime differential monitoring vs V8 + trap-handler monitor')
-for p in ['C02','C03','C04','C05','C06','C07','C08','C09','C10','C11','C12','C13','C14','C15','C16','C17','C18','C19','C20']:
+CHECKS['C02'] = dict(category='exploration', design_ref='DESIGN.md §2 C02',
+  text='Runtime differential monitoring of every float/conversion opcode over boundary bit-pattern sets (all NaN classes, signed zeros, infinities, subnormals, ties, exact truncation boundaries +-1ulp, integers that round) and of nested float programs with NaN canonicalisation; NaN results of arithmetic compared by class, everything else bit-exactly; trap kind derived from the operand. Held = no divergence on the listed executions.',
+  note=V8 + ' Host libm (sqrt, ceil, floor, trunc, nearbyint) correctly rounded; default rounding mode.', technique='runtime differential monitoring vs V8, NaN-class aware')
+CHECKS['C03'] = dict(category='exploration', design_ref='DESIGN.md §2 C03',
+  text='Runtime differential monitoring of control-heavy generated programs: result/trap, ordered host-call trace along the taken path, final globals and memory image compared with V8 for every call; evidence counts distinct executed paths.',
+  note=V8, technique='runtime differential monitoring vs V8 with host-call trace')
+CHECKS['C04'] = dict(category='exploration', design_ref='DESIGN.md §2 C04',
+  text='Runtime differential monitoring of generated call-graph modules (imports, re-exports, DAG and mutually recursive calls, call_indirect through defined/imported tables with overlapping element segments and imported-global offsets): results fold every argument position, host imports log arguments and the instance pointer, every covered table slot is probed and the table bitmap is read directly.',
+  note=V8, technique='runtime differential monitoring vs V8 + table-slot walk + host argument trace')
+CHECKS['C05'] = dict(category='exploration', design_ref='DESIGN.md §2 C05',
+  text='Runtime monitoring of operation histories on memories of many limit shapes: every step''s return value, page count and whole-image hash compared with V8; ASan fault probes make 32-bit wrap-around of base+offset observable (only access to the wrapped address is a violation).',
+  note=V8 + ' Grows whose outcome depends on host resources are not issued.', technique='history differential vs V8 + ASan fault probes')
+CHECKS['C07'] = dict(category='exploration', design_ref='DESIGN.md §2 C07',
+  text='Every constant class (all NaN classes and signs, zeros, infinities, subnormals, extremes, 9/17-digit floats, integer and LEB boundaries, random) is placed in function bodies, global initialisers and segment offsets, translated, compiled by gcc and clang at -O0/-O2 and read back; oracle = the constant itself.',
+  note='Trusted: gcc 12 / clang 14 literal parsing (they are the compilers under quantification here).', technique='runtime read-back of compiled literals')
+for p in ['C06','C08','C09','C10','C11','C12','C13','C14','C15','C16','C17','C18','C19','C20']:
     NA[p] = 'check not implemented yet in this revision (runtime-monitoring design exists in DESIGN.md; no claim is made until the monitor runs)'
